@@ -4,3 +4,6 @@ import BalmProofs.Props.C09
 #print axioms Balm.Impl.mem_solveRef_min
 #print axioms Balm.Impl.mem_solveRef_fix
 #print axioms Balm.Impl.mem_reducedFixedPoints
+#print axioms Balm.Impl.trapProgram_models_min
+#print axioms Balm.Impl.models_are_trapspaces
+#print axioms Balm.Impl.fp_models_iff
